@@ -48,6 +48,7 @@ REACTIONS = {
     "ksp-dpd": ({"catalogue": "jpsi_ksp_sigma_n.hel"}, True),
     "gpipi-can": ({"catalogue": "jpsi_gpipi_f0f2.can"}, False),
     "omega": ({"catalogue": "jpsi_gpipi_omega.hel"}, False),
+    "kspfull-dpd": ({"catalogue": "jpsi_ksp_full.hel"}, True),
     "four": ({"spec": None}, False),
     "syn-dpd": ({"spec": None}, True),
 }
@@ -69,7 +70,21 @@ def _syn_spec():
                              parities=(-1, 1, -1, -1))
 
 
-def load_reaction(key):
+def load_reaction(key, sub: bool = False):
+    """`sub`: the same particles and topologies with a restricted helicity set (initial
+    projections of maximal modulus only) - a *different* reaction for a second builder."""
+    r = _load_reaction(key)
+    if sub:
+        from qrules.transition import ReactionInfo  # noqa: PLC0415
+
+        init = next(iter(r.initial_state))
+        jmax = max(abs(t.states[init].spin_projection) for t in r.transitions)
+        kept = [t for t in r.transitions if abs(t.states[init].spin_projection) == jmax]
+        r = ReactionInfo(kept, formalism=r.formalism)
+    return r
+
+
+def _load_reaction(key):
     src, zero_based = REACTIONS[key]
     if "catalogue" in src:
         r = R.load_catalogue(src["catalogue"])
@@ -145,12 +160,19 @@ def histories(key: str, tier: str, two_builders: bool, deep: bool = False) -> li
     return out
 
 
-CHUNK_SIZE = 24
+CHUNK_SIZE = 40
 
 
 def cases(tier, seed):
     out = []
-    keys = ["ksp-dpd", "ksp", "omega", "four"] if tier == "quick" else list(REACTIONS)
+    keys = ["ksp-dpd", "ksp", "omega", "four"] if tier == "quick" else [k for k in REACTIONS if k != "kspfull-dpd"]
+    # two builders on two DIFFERENT reactions (same particles, restricted helicity set)
+    for base in bases("kspfull-dpd"):
+        hs = [h for h in histories("kspfull-dpd", tier, True) if len(h) <= (3 if tier == "quick" else 4)]
+        hs = [h for h in hs if any(op[0] == 1 and op[1] == "formulate" for op in h[:-1]) or tier != "quick"]
+        for i in range(0, len(hs), CHUNK_SIZE):
+            out.append({"reaction": "kspfull-dpd", "base": base, "two": True, "sub": True,
+                        "histories": hs[i:i + CHUNK_SIZE], "seed": seed, "tier": tier})
     for key in keys:
         for base in bases(key):
             for two in (False, True, "deep"):
@@ -330,23 +352,26 @@ def two_resonance_node(topologies) -> bool:
     return False
 
 
-def run_history(key: str, base: list, history: list, check_fresh: bool = True) -> dict:
-    """Execute one history on real builders; returns digests of every formulate()."""
+def run_history(key: str, base: list, history: list, check_fresh: bool = True, sub: bool = False) -> dict:
+    """Execute one history on real builders; returns digests of every formulate().
+
+    `sub`: builder 1 works on the restricted sibling reaction (see load_reaction)."""
     import ampform  # noqa: PLC0415
 
     clear_caches()
-    reaction = load_reaction(key)
     builders = {}
     states = {}
+    reactions = {}
     out = {"formulates": [], "notes": []}
     for b_idx in sorted({op[0] for op in history}):
-        builders[b_idx] = ampform.get_builder(reaction)
+        reactions[b_idx] = load_reaction(key, sub=(sub and b_idx == 1))
+        builders[b_idx] = ampform.get_builder(reactions[b_idx])
         states[b_idx] = {}
         for op in base:
-            apply_op(builders[b_idx], reaction, op, states[b_idx])
+            apply_op(builders[b_idx], reactions[b_idx], op, states[b_idx])
     for step, op in enumerate(history):
         b_idx = op[0]
-        model = apply_op(builders[b_idx], reaction, op[1:], states[b_idx])
+        model = apply_op(builders[b_idx], reactions[b_idx], op[1:], states[b_idx])
         if model is None:
             continue
         entry = {"step": step, "builder": b_idx, "digest": model_digest(model)}
@@ -361,11 +386,50 @@ def run_history(key: str, base: list, history: list, check_fresh: bool = True) -
     if check_fresh:
         for entry in out["formulates"]:
             clear_caches()
-            fresh = fresh_builder_for(load_reaction(key), entry["state"], entry["_topologies"])
+            fresh = fresh_builder_for(load_reaction(key, sub=(sub and entry["builder"] == 1)),
+                                      entry["state"], entry["_topologies"])
             entry["fresh"] = model_digest(fresh.formulate())
     for entry in out["formulates"]:
-        entry.pop("_topologies")
+        topologies = entry.pop("_topologies")
+        if check_fresh:
+            import base64  # noqa: PLC0415
+            import pickle  # noqa: PLC0415
+
+            entry["pristine_config"] = {
+                "sub": bool(sub and entry["builder"] == 1),
+                "state": entry["state"],
+                "topologies": base64.b64encode(pickle.dumps(sorted(topologies, key=_topology_key))).decode(),
+            }
     clear_caches()
+    return out
+
+
+def pristine_digests(key: str, configs: dict) -> dict:
+    """Digest of the model of each configuration, each computed in a forked child of THIS
+    process, which must not have formulated anything yet (so that hidden state that
+    `clear_caches` cannot find - a hand-written module-level cache - is empty too)."""
+    import base64  # noqa: PLC0415
+    import pickle  # noqa: PLC0415
+
+    out = {}
+    for ckey, cfg in configs.items():
+        r, w = os.pipe()
+        pid = os.fork()
+        if pid == 0:
+            try:
+                os.close(r)
+                topologies = pickle.loads(base64.b64decode(cfg["topologies"]))  # noqa: S301
+                b = fresh_builder_for(load_reaction(key, sub=cfg["sub"]), cfg["state"], topologies)
+                data = json.dumps(model_digest(b.formulate()))
+            except BaseException as exc:  # noqa: BLE001
+                data = json.dumps({"error": f"{type(exc).__name__}: {exc}"})
+            with os.fdopen(w, "w") as fh:
+                fh.write(data)
+            os._exit(0)
+        os.close(w)
+        with os.fdopen(r) as fh:
+            out[ckey] = json.loads(fh.read() or "{}")
+        os.waitpid(pid, 0)
     return out
 
 
@@ -381,7 +445,7 @@ def eval_case(case):
     nontrivial = []
     local = []
     for h in hs:
-        res = run_history(key, base, h)
+        res = run_history(key, base, h, sub=bool(case.get("sub")))
         local.append(res)
         transitions += len(h) + len(base) * len({op[0] for op in h})
         traces += 1
@@ -389,8 +453,17 @@ def eval_case(case):
             nontrivial.append([key, base, h])
     # (c) the same histories in fresh interpreters under other hash seeds
     others = {}
+    pristine = {}
     modes = ["1", "unset"] if case.get("tier") == "quick" else ["1", "2", "unset"]
-    payload = json.dumps({"reaction": key, "base": base, "histories": hs})
+    pristine_cfgs = {}
+    for res in local:
+        for entry in res["formulates"]:
+            cfg = entry.pop("pristine_config")
+            ckey = hashlib.sha256(json.dumps(cfg, sort_keys=True).encode()).hexdigest()[:16]
+            entry["pristine_key"] = ckey
+            pristine_cfgs[ckey] = cfg
+    payload = json.dumps({"reaction": key, "base": base, "histories": hs, "sub": bool(case.get("sub")),
+                          "pristine": pristine_cfgs})
     with tempfile.TemporaryDirectory(prefix="c06_") as tmp:
         path = os.path.join(tmp, "in.json")
         with open(path, "w") as f:
@@ -401,6 +474,9 @@ def eval_case(case):
             env.pop("PYTHONHASHSEED", None)
             if mode != "unset":
                 env["PYTHONHASHSEED"] = mode
+            env.pop("C06_PRISTINE", None)
+            if mode == modes[0]:
+                env["C06_PRISTINE"] = "1"
             procs[mode] = subprocess.Popen(  # noqa: S603
                 [sys.executable, "-W", "ignore", "-m", "vp.checks.c06", path],
                 env=env, stdout=subprocess.PIPE, stderr=subprocess.PIPE, text=True)
@@ -411,7 +487,10 @@ def eval_case(case):
 
                 msg = f"C06 worker (PYTHONHASHSEED={mode}) failed: {se[-2000:]}"
                 raise HarnessError(msg)
-            others[mode] = json.loads(so)
+            data = json.loads(so)
+            others[mode] = data["results"]
+            if data.get("pristine"):
+                pristine = data["pristine"]
             traces += len(hs)
     for hi, h in enumerate(hs):
         res = local[hi]
@@ -433,6 +512,21 @@ def eval_case(case):
                              "detail": {"history": h, "base": base, "reaction": key}})
             else:
                 outcomes["same-as-fresh"] = outcomes.get("same-as-fresh", 0) + 1
+            pd = pristine.get(entry["pristine_key"])
+            if pd is None or "error" in pd:
+                from vp.core import HarnessError  # noqa: PLC0415
+
+                msg = f"no pristine digest for {entry['state']}: {pd}"
+                raise HarnessError(msg)
+            d = _diff(entry["digest"], pd)
+            if d:
+                viol.append({"msg": f"model differs in {d} from the same configuration {entry['state']} formulated"
+                                    f" first in a pristine process: {where}",
+                             "tags": ["history-dependence", "vs-pristine-process", *tags_region,
+                                      *[f"history-dependence+{t}" for t in tags_region]],
+                             "detail": {"history": h, "base": base, "reaction": key}})
+            else:
+                outcomes["same-as-pristine-process"] = outcomes.get("same-as-pristine-process", 0) + 1
             for mode, data in others.items():
                 other = data[hi]["formulates"][fi]["digest"]
                 d = _diff(entry["digest"], other)
@@ -462,5 +556,8 @@ if __name__ == "__main__":
     core.ensure_repo_import()
     with open(sys.argv[1]) as fh:
         job = json.load(fh)
-    results = [run_history(job["reaction"], job["base"], h, check_fresh=False) for h in job["histories"]]
-    print(json.dumps(results))
+    # pristine digests first: this interpreter has not formulated anything yet
+    pristine_out = pristine_digests(job["reaction"], job.get("pristine", {})) if os.environ.get("C06_PRISTINE") else {}
+    results = [run_history(job["reaction"], job["base"], h, check_fresh=False, sub=job.get("sub", False))
+               for h in job["histories"]]
+    print(json.dumps({"results": results, "pristine": pristine_out}))
